@@ -1,1 +1,68 @@
-fn main(){}
+//! lmpyconform - runs /verif/py/driver.py inside an embedded CPython in which the repository's own
+//! `lightmotif-py` crate is registered as `lightmotif.lib` (exactly like lightmotif-py/lightmotif/tests/unittest.rs),
+//! so that the Python bindings of /repo's current working tree are exercised without building a wheel.
+//!
+//!   lmpyconform record <C17|C18> <out.ndjson> [--seed N] [--thorough]
+use pyo3::prelude::*;
+use pyo3::types::{PyDict, PyList, PyModule};
+
+/// Hook H1 exposed to the Python driver: force the dispatcher arm on this thread ("avx2" | "sse2" | "generic" | "none").
+#[pyfunction]
+fn force_arm(name: &str) -> PyResult<()> {
+    use lightmotif::pli::dispatch::Dispatch;
+    lightmotif::verif::force_backend(match name {
+        "avx2" => Some(Dispatch::Avx2),
+        "sse2" => Some(Dispatch::Sse2),
+        "generic" => Some(Dispatch::Generic),
+        _ => None,
+    });
+    Ok(())
+}
+
+fn main() {
+    std::panic::set_hook(Box::new(|_| {}));
+    let args: Vec<String> = std::env::args().collect();
+    if args.len() < 4 || args[1] != "record" {
+        eprintln!("usage: lmpyconform record <C17|C18> <out.ndjson> [--seed N] [--thorough]");
+        std::process::exit(2);
+    }
+    let mut seed = 1u64;
+    let mut thorough = false;
+    let mut i = 4;
+    while i < args.len() {
+        match args[i].as_str() {
+            "--seed" => { seed = args[i + 1].parse().expect("seed"); i += 1; }
+            "--thorough" => thorough = true,
+            _ => {}
+        }
+        i += 1;
+    }
+    let verif = std::env::var("LMV_VERIF").unwrap_or_else(|_| "/verif".to_string());
+    pyo3::prepare_freethreaded_python();
+    let r: PyResult<String> = Python::with_gil(|py| {
+        let sys = py.import_bound("sys")?;
+        let path = sys.getattr("path")?;
+        let path = path.downcast::<PyList>()?;
+        path.insert(0, "/repo/lightmotif-py")?;
+        path.insert(0, format!("{}/py", verif))?;
+        let module = PyModule::new_bound(py, "lightmotif.lib")?;
+        lightmotif_py::init(py, &module)?;
+        let modules = sys.getattr("modules")?;
+        let modules = modules.downcast::<PyDict>()?;
+        modules.set_item("lightmotif.lib", module)?;
+        let hook = PyModule::new_bound(py, "lmhook")?;
+        hook.add_function(wrap_pyfunction!(force_arm, &hook)?)?;
+        modules.set_item("lmhook", hook)?;
+        let driver = py.import_bound("driver")?;
+        let out = driver.call_method1("main", (args[2].as_str(), args[3].as_str(), seed, thorough))?;
+        out.extract::<String>()
+    });
+    match r {
+        Ok(summary) => println!("{}", summary),
+        Err(e) => {
+            Python::with_gil(|py| e.print(py));
+            eprintln!("driver failed");
+            std::process::exit(3);
+        }
+    }
+}
